@@ -333,3 +333,23 @@ package controller
 //@     invariant 0 <= iter() && iter() <= len(config.Webhook.Rules) && forall(k, string, has(c.Links, k) ==> c.Links[k] != nil)
 //@     invariant forall(i, 0, len(c.Bindings), atloop(RulesLinked(c.Links, c.Bindings[i], len(c.Bindings[i].Webhook.Rules))) ==> RulesLinked(c.Links, c.Bindings[i], len(c.Bindings[i].Webhook.Rules)))
 //@     invariant RulesLinked(c.Links, config, iter())
+
+// C06 / C01: enabling the kubernetes bindings of a hook yields one Synchronization execution per
+// binding, in configuration order - also when the task is retried after an earlier attempt failed
+// half way (a binding whose monitor exists already still gets its Synchronization: without it the
+// monitor is never unlocked and delivers no Event); an error yields none.
+//@ package github.com/flant/shell-operator/pkg/kube_events_manager
+//@ trusted func KubeEventsManager.AddMonitor
+//@   modifies nothing
+//@ trusted func KubeEventsManager.StartMonitor
+//@   modifies nothing
+//@ package github.com/flant/shell-operator/pkg/hook/controller
+//@ func (*kubernetesBindingsController).EnableKubernetesBindings
+//@   prop C06, C01
+//@   requires c != nil && c.kubeEventsManager != nil && c.BindingMonitorLinks != nil
+//@   requires forall(j, 0, len(c.KubernetesBindings), c.KubernetesBindings[j].Monitor != nil)
+//@   modifies mapof(c.BindingMonitorLinks)
+//@   ensures [one-synchronization-per-binding] result1 == nil ==> len(result0) == len(c.KubernetesBindings)
+//@   ensures [error-yields-none] result1 != nil ==> len(result0) == 0
+//@   loop 1
+//@     invariant 0 <= iter() && iter() <= len(c.KubernetesBindings) && fresh(res) && len(res) == iter() && c.BindingMonitorLinks != nil
